@@ -1,10 +1,11 @@
 #!/bin/sh
-# tools/run_seeds.sh [repo]  -- apply every seeded change to a repository copy (default $VP_RUN_REPO or /repo), run the check of the
+# tools/run_seeds.sh [repo]   (SEEDS_ONLY='<extended regex on the seed id>' restricts the set)  -- apply every seeded change to a repository copy (default $VP_RUN_REPO or /repo), run the check of the
 # property it breaks (quick tier), undo it.  Prints one line per seed:  <seed> <property> exit=<rc> violations=<n>
 R="${1:-${VP_RUN_REPO:-/repo}}"
 cd "$(dirname "$0")/.." || exit 2
 for d in seeded/*/; do
   id=$(basename "$d"); prop=${id%%-*}
+  if [ -n "${SEEDS_ONLY:-}" ] && ! echo "$id" | grep -Eq "$SEEDS_ONLY"; then continue; fi
   if ! git -C "$R" apply --check "$PWD/$d/patch.diff" 2>/dev/null; then echo "$id $prop DOES-NOT-APPLY"; continue; fi
   git -C "$R" apply "$PWD/$d/patch.diff"
   out=$(VERIF_REPO="$R" ./check "$prop" --tier quick 2>&1); rc=$?
